@@ -81,7 +81,7 @@ func (e *Exec) invoke(st *State, fr *Frame, cc *ssa.CallCommon, fv *Value, args 
 	if lib := libCall(e, st, fr, callee, args, k); lib {
 		return
 	}
-	if ct := e.W.Contracts[shortName(callee)]; ct != nil && !ct.Inline && (len(ct.Ensures)+len(ct.Requires) > 0 || ct.Pure || ct.MayPanic) && !e.W.forceInline[shortName(callee)] {
+	if ct := e.W.Contracts[shortName(callee)]; ct != nil && !ct.Inline && (len(ct.Ensures)+len(ct.Requires) > 0 || ct.Pure || ct.MayPanic || len(ct.Assigns) > 0) && !e.W.forceInline[shortName(callee)] {
 		e.callByContract(st, fr, callee, ct, args, k)
 		return
 	}
